@@ -3,7 +3,11 @@ package shared
 // C05 — chunk ids are strictly increasing in creation order (as strings, which
 // is what recovery and retransmission sort by), under a non-decreasing clock.
 
-import "github.com/relex/slog-agent/zz_verif/sym"
+import (
+	"time"
+
+	"github.com/relex/slog-agent/zz_verif/sym"
+)
 
 //verif:solver cvc5-int
 //verif:reach done
@@ -17,3 +21,31 @@ func VerifC05_ChunkIdsIncrease() {
 	sym.Assert(a[len(a)-3:] == ".ff", "ids carry the output's suffix")
 	sym.Reach("done")
 }
+
+// VerifC11_ChunkIdsUniqueAcrossIncarnations: a chunk maker is re-created
+// (restart, reload, relaunched pipeline) and makes its first chunk strictly
+// later than the last chunk of its predecessor - by any amount of time, a
+// nanosecond included: the two ids differ and sort in creation order (the id is
+// the storage name: a collision would overwrite or unlink a stored chunk).
+//
+//verif:solver cvc5-int
+//verif:reach done
+func VerifC11_ChunkIdsUniqueAcrossIncarnations() {
+	g1 := newChunkIDGenerator(".ff")
+	g1.Generate()
+	a := g1.Generate()
+	t1 := time.Now()
+	t2 := time.Now()
+	sym.Assume(t2.UnixNano() > t1.UnixNano()) // time passes between the incarnations
+	g2 := newChunkIDGenerator(".ff")
+	b := g2.Generate()
+	sym.Assert(a != b, "chunk ids are unique across incarnations of a chunk maker")
+	sym.Assert(a < b, "ids of a later incarnation sort after the ids of the earlier one")
+	sym.Reach("done")
+}
+
+// VerifC05_ChunkIdsOrderedAcrossIncarnations: the same run read for C05 (recovery sorts stored chunks by id).
+//
+//verif:solver cvc5-int
+//verif:reach done
+func VerifC05_ChunkIdsOrderedAcrossIncarnations() { VerifC11_ChunkIdsUniqueAcrossIncarnations() }
